@@ -114,7 +114,40 @@ def _field_rule(op, args, impl):
     return any(a.count(",") >= 2 or ";" in a for a in args[:3])
 
 
+def _c14_rule(op, args, impl):
+    # non-trivial: a modulus / order of degree >= 2 and a non-zero operand
+    if op.startswith("alg."):
+        return args[0].count(",") >= 2 and any(ch in "".join(args[1:3]) for ch in "123456789")
+    return (";" in args[0] or "|" in args[0]) and any(ch in "".join(args[1:]) for ch in "123456789")
+
+
+def _c15_rule(op, args, impl):
+    # non-trivial: dimension / degree >= 2
+    return ";" in args[0] or args[0].count(",") >= 2
+
+
 INFO = {
+    "C14": {
+        "rule": "alg.*: every product (and fifth power) of elements with coefficients in {-1,0,1} modulo every quadratic f with low coefficients in {-1,0,1} and leading coefficient in {1,2} (thorough: also -1, 3); seeded random f of degree 1..6 with coefficients up to 2^40, monic and non-monic, every fourth one a product of two random factors (reducible), elements of degree < n with numerators up to 2^40 and denominators up to 12: add, sub, mul, squares, as_coefs, pow (u64 and BigInt exponents up to 40), and 13 law flags evaluated on the implementation (commutativity, associativity, distributivity, units, subtraction, a^(s+t) = a^s a^t, (ab)^s = a^s b^s, (a^s)^t = a^(st), owned vs by-reference operators, u64 vs BigInt exponent). mt.* / ord.toz*: for seeded random f of degree 2..6 the orders Z[theta] (monic f), Z[theta] meet Z[1/theta] (non_monic_initial_order), Z + m O for m in 2..6, and find_integral_basis for degree <= 4 (small f and f(x) = k^n g(x/k), whose maximal order has denominators): the table, and on coordinate vectors up to 2^40 (degree <= 3; 2^24 for degree 4; 2^12 above) mul, trace, norm, inv, 9 law flags (commutative, associative, distributive, norm multiplicative, trace additive and homogeneous, unit, norm/trace of integers, a * inv(a) = |norm a|), to_z_basis / to_z_basis_int on members and on random elements; zero element, -1, zero divisors g(theta) of f = g h; lattices that are not rings (integrality assertion: oracle checks that some product of basis vectors is outside the module and skips). mtr.*: MultTable methods on raw commutative integer tables up to 4x4x4, the Gaussian table with operands of wrong length, the empty table. Edge cases outside the statement (degree-1 f with theta, constant and zero min_poly, unreduced operands) are run for the panic behaviour of the model only. Non-trivial: degree >= 2 and a non-zero operand; distinct = distinct (op,args).",
+        "rulefn": _c14_rule,
+        "trusted": ["Polynomial<BigRational> / Vec<Vec<BigRational>> / Vec<Vec<Vec<BigInt>>> identified with List Rat / List (List Rat) / List (List (List Int))",
+                    "an order is passed as its stored basis and rebuilt with Order::from_basis (the field is private); the oracle applies when that basis is in stored form, which C15 checks to be a fixed point of from_basis",
+                    "the table is read back through MultTable::mul on unit vectors (cross-checked against its Debug rendering on every case)"],
+        "gaps": ["multiplication tables (get_mult_table, MultTable::mul/trace/norm/inv, to_z_basis): certified on every explored case by Spec.Field (products of basis vectors by rational long division, trace/determinant of the multiplication matrix in the power basis, Res(f,g)/lc(f)^deg g by the Sylvester determinant, a*b = d by field arithmetic); theorems outstanding"],
+        "assumptions": ["f canonical of degree >= 1, operands reduced (canonical, degree < n); for the table clauses: the lattice is closed under multiplication and contains 1 (w_0 = 1), dimension = degree of f; inv: the multiplication map of a is invertible (a non-zero in a field)"],
+        "level_text": "Theorems for every f of degree n >= 1 (any non-zero leading coefficient) and all reduced operands about the Lean model of algebraic.rs: the product is the remainder of the polynomial product modulo f, canonical of degree < n, and no assertion fires; sums and differences; commutativity, associativity, distributivity, units as equalities of the stored lists; binary exponentiation computes a^e mod f, a^(s+t) = a^s a^t, (ab)^s = a^s b^s. The multiplication-table clauses are certified per explored case by independent oracles; the model of order.rs / mult_table.rs is compared textually with the implementation.",
+        "level_note": "Trusted: Lean kernel + 3 standard axioms; Mathlib polynomials; BigInt/BigRational identified with Int/Rat; correspondence generator coverage. Partial: table clauses certified per explored case, not proved.",
+    },
+    "C15": {
+        "rule": "from_basis on every 2x2 basis with entries in {-1,0,1,1/2}; seeded random non-singular rational bases of dimension 1..6 (numerators up to 2^40 for dimension <= 3, 2^20 above; denominators up to 12 or one common denominator): stored form, a unimodular rebasing U*A (equal orders demanded), the stored form as a fixed point, sub-lattices M*A with M = unimodular * lower triangular of prescribed diagonal (index), chains A > B > C (multiplicativity), the reversed pair (non-integral quotient: explicit panic), union of two sub-lattices in both orders with 5 law flags (commutative, idempotent, absorbing, positive integer indices, stored form stable), absorption of a sub-lattice; unrelated pairs; singular bases (repeated / zero row: index panic of hnf_reduce, mirrored). Fields: seeded random f of degree 2..6 (monic and not, coefficients up to 2^30 for degree <= 3) and f(x) = k^n g(x/k): trivial_order_monic, non_monic_initial_order (same module as 1, a_n theta, a_n theta^2 + a_(n-1) theta, ...; closed under multiplication), singly_gen of theta, c*theta and random elements, disc(Z[theta]) = discriminant(f) for monic f, discriminant of the starting order, of Z + m O, of the computed maximal order (degree <= 4) and of random lattices (non-integral: assertion, skipped), disc(B) = (A:B)^2 disc(A) on pairs order/sub-order, maximal/starting, lattice/sub-lattice. Edge cases outside the statement (empty basis, ragged or wide rows, dimension mismatch, degree-1 / constant / zero min_poly) are run for the panic behaviour of the model only. Non-trivial: dimension or degree >= 2; distinct = distinct (op,args).",
+        "rulefn": _c15_rule,
+        "trusted": ["Vec<Vec<BigRational>> identified with List (List Rat)",
+                    "orders are built with Order::from_basis from the basis given in the op line (the field is private); orders produced by other constructors are passed as their stored basis"],
+        "gaps": ["canonical form (two bases of one module give equal orders; stored basis spans the input module and is lcm-denominator * HNF), union = HNF-span of the stacked generators, constructors: certified on every explored case by Spec.Field (mutual containment by adjugate inverse, isHNF, span by proved hnfNew + back-substitution, determinant of the trace form for discriminants); theorems outstanding for these clauses"],
+        "assumptions": ["square non-singular rational bases of dimension n >= 1; index / chains: the second module is contained in the first; discriminants: dimension = degree of f, f canonical of degree >= 1; disc(Z[theta]) = disc(f): f monic of degree >= 2 (Algebraic::new of a linear f is not reduced and singly_gen asserts)"],
+        "level_text": "Theorems about the Lean model of order.rs for all n x n rational bases: index(A,B) = i exactly when det B = i det A, the explicit panic exactly when the quotient is not an integer; for B = C*A with an integer matrix C the index is det C (never a panic); (A:C) = (A:B)(B:C); disc(B) = (A:B)^2 disc(A), computed without a panic whenever disc(A) and the index exist; a unimodular rebasing has index +-1. Canonical form, union and the constructors are certified per explored case by independent oracles; the model is compared textually with the implementation.",
+        "level_note": "Trusted: Lean kernel + 3 standard axioms; Mathlib Matrix/det (through C18's determinant theorem); BigInt/BigRational identified with Int/Rat; correspondence generator coverage. Partial: canonical-form and union clauses certified per explored case, not proved.",
+    },
     "C06": {
         "cli": True,
         "rule": "find_integral_basis on: the unit tests; quadratic x^2-d and x^2+bx+c with large square factors in the discriminant (prime-power indices 2^k, 3^k, 5^k); pure cubics x^3-m incl. m = +-1 mod 9; cyclotomic Phi_n (n <= 12); biquadratics; non-monic f; random irreducible f of degree <= 5 (thorough 6) with coefficients in [-5,5] (irreducible modulo a small prime or from a fixed list; discriminant cofactor bounded so that the implementation's trial division stays short); changes of generator theta+k, -theta, c*theta (c <= 6), 1/theta; closed-form field discriminants; the CLI (to_find = integral_basis) as a process; the private Round 2 step one_step through the feature-guarded wrapper. Non-trivial: degree >= 2.",
